@@ -244,6 +244,8 @@ func serverEffects(c *core.Ctx, R string) {
 				case "abortUpgrade", "emitAbortRequest", "CloseWithError", "Close":
 					if g.GuardedBy(cl.Loc, failing) {
 						refusal = true
+					} else if ok, _ := g.DisjunctGuard(cl.Loc, failing); ok {
+						refusal = true // the failure is one member of a merged refusal test: the refusal still runs whenever it holds
 					}
 				case "MaybeUpgrade", "Handshake", "NextReader", "NewConn", "AcceptStream", "DecodePacket", "Decode":
 					// no progress after a failure: nothing of the handshake may still be reachable from the failing edge
@@ -323,6 +325,17 @@ func serverEffects(c *core.Ctx, R string) {
 			for _, r := range returnsIn(u) {
 				if g.GuardedBy(r.Loc, gd) {
 					ret = true
+				} else if ok, others := g.DisjunctGuard(r.Loc, gd); ok {
+					// merged with other refusal tests (`if err != nil || wth.Sid == ""`): every member ends the handler
+					all := true
+					for _, o := range others {
+						lic := g.Establishes(gErrNonNil(), o, r.Loc.B)
+						for _, g2 := range []core.Guard{notOpen, emptySid} {
+							lic = lic || g.Establishes(g2, o, r.Loc.B)
+						}
+						all = all && lic
+					}
+					ret = ret || all
 				}
 			}
 			c.Check(R, keyf("%s/%s→return", srvOnWT, name), u.Pos(), ret, "this edge ends the handler")
